@@ -1049,7 +1049,7 @@ pub fn stmt_strategy(o: &GenOpts) -> BoxedStrategy<Stmt> {
                 .boxed(),
         ));
         alts.push((
-            o.free_horner_weight,
+            o.free_horner_weight.max(1),
             (idx(), idx(), idx(), idx())
                 .prop_map(|(a, b, c, d)| Stmt::Horner(a, b, c, d))
                 .boxed(),
